@@ -48,8 +48,11 @@ type Cfg struct {
 	MaxTime    int            `json:"maxTime"`
 	RetryDelay int            `json:"retryDelay"`
 	// queue mode only
-	Restart bool     `json:"restart"` // after Close returned: a new Queue on the same spool directory
-	Hdr     []string `json:"hdr"`     // messages whose header cannot be opened (ELOOP) from the end of attempt 1 to the restart
+	Restart  bool     `json:"restart"` // after Close returned: a new Queue on the same spool directory
+	Hdr      []string `json:"hdr"`
+	Panic    []string `json:"panic"`    // both modes: messages whose first attempt panics inside the target
+	Pid      int      `json:"pid"`      // post_init_delay (units)
+	Downtime int      `json:"downtime"` // units of (fake) time between shutdown and restart     // messages whose header cannot be opened (ELOOP) from the end of attempt 1 to the restart
 }
 
 type Behaviour struct {
@@ -74,6 +77,7 @@ type run struct {
 	pref     string
 	selCalls int
 	retry    map[string]bool
+	panics   map[string]bool
 	steps    int
 	maxStep  int
 	// wheel mode
@@ -129,16 +133,18 @@ func msgOf(e string) string { return strings.TrimSuffix(e, ".2") }
 
 // attempt is the observation point "the attempt for entry e starts"; it
 // returns whether the scripted outcome is a temporary failure.
-func (r *run) attempt(e string) bool {
+func (r *run) attempt(e string) string {
 	now := r.now()
-	retry := !strings.HasSuffix(e, ".2") && r.retry[e]
 	res := "ok"
-	if retry {
+	first := !strings.Contains(e, ".")
+	if first && r.panics[e] {
+		res = "panic"
+	} else if first && r.retry[e] {
 		res = "temp"
 	}
 	r.tr.Emit("Dispatch", vtrace.Ev{"ent": e, "m": msgOf(e), "now": now, "res": res,
 		"next": e + ".2", "ndue": now + r.b.Cfg.RetryDelay})
-	return retry
+	return res
 }
 
 // ---------------------------------------------------------------- wheel mode
@@ -162,9 +168,12 @@ func (r *run) dispatchMini(slot queue.TimeSlot) {
 				r.brokenM[msgOf(e)] = true
 			}
 		}()
-		if r.attempt(e) {
+		switch r.attempt(e) {
+		case "temp":
 			r.tw.Add(time.Now().Add(time.Duration(r.b.Cfg.RetryDelay)*tickDur), e+".2")
-		} else {
+		case "panic":
+			panic("scripted target panic")
+		default:
 			delete(r.spool, msgOf(e))
 		}
 	})
@@ -188,11 +197,14 @@ func (t target) Start(ctx context.Context, meta *module.MsgMetadata, from string
 	if g := vsched.Current(); g != nil && strings.HasPrefix(g.Name, "w?") {
 		g.Name = "w:" + e
 	}
-	if t.r.attempt(e) {
+	switch t.r.attempt(e) {
+	case "temp":
 		if t.r.hdr[id] {
 			t.r.breakHeader(id)
 		}
 		return nil, scripted.ErrFor("temp", "Start")
+	case "panic":
+		panic("scripted target panic")
 	}
 	return delivery{}, nil
 }
@@ -224,8 +236,9 @@ func (r *run) newQueue() (*queue.Queue, error) {
 	c := r.b.Cfg
 	return queue.VerifNewQueue(queue.VerifConfig{
 		Location: r.dir, Target: target{r}, MaxTries: 5, MaxParallelism: c.Par,
-		InitialRetryTime: time.Duration(c.RetryDelay) * tickDur, RetryTimeScale: 1, PostInitDelay: 0,
-		Hostname: "mx.example.org", AutogenMsgDomain: "example.org",
+		InitialRetryTime: time.Duration(c.RetryDelay) * tickDur, RetryTimeScale: 1,
+		PostInitDelay: time.Duration(c.Pid) * tickDur,
+		Hostname:      "mx.example.org", AutogenMsgDomain: "example.org",
 		Log: log.Logger{Out: log.NopOutput{}},
 	})
 }
@@ -233,9 +246,12 @@ func (r *run) newQueue() (*queue.Queue, error) {
 // restart: a new Queue on the same spool directory (readDiskQueue re-schedules
 // what is pending), driven to quiescence with the clock running on.
 func (r *run) restart() {
-	r.q2 = r.q // (a restart is under way: the clock runs freely again)
+	r.q2 = r.q                              // (a restart is under way: the clock runs freely again)
+	for i := 0; i < r.b.Cfg.Downtime; i++ { // the process is down: only the clock moves
+		r.clock()
+	}
 	r.restoreHeaders()
-	r.tr.Emit("Restart", vtrace.Ev{"now": r.now()})
+	r.tr.Emit("Restart", vtrace.Ev{"now": r.now(), "pid": r.b.Cfg.Pid})
 	r.nextName = "tick2"
 	r.s.Spawn("restart", func() {
 		q, err := r.newQueue()
@@ -255,6 +271,10 @@ func (r *run) setup() {
 	r.retry = map[string]bool{}
 	for _, p := range c.Retry {
 		r.retry[p] = true
+	}
+	r.panics = map[string]bool{}
+	for _, p := range c.Panic {
+		r.panics[p] = true
 	}
 	r.s = vsched.New()
 	nWorkers := 0
@@ -402,7 +422,9 @@ func (r *run) selOrder(g *vsched.G, n int) []int {
 	return o
 }
 
-func (r *run) cap() int { return 2*r.b.Cfg.MaxTime + r.b.Cfg.RetryDelay + 2 }
+func (r *run) cap() int {
+	return 2*r.b.Cfg.MaxTime + r.b.Cfg.RetryDelay + 2 + r.b.Cfg.Downtime + r.b.Cfg.Pid
+}
 
 // clockOK: the clock runs freely up to MaxTime; beyond it only while nothing
 // else can run and something is still unfinished (to let pending timers fire).
@@ -578,7 +600,8 @@ func runBehaviour(t *testing.T, b Behaviour, w *bufio.Writer) {
 		c := b.Cfg
 		r.tr.Emit("Cfg", vtrace.Ev{"mode": c.Mode, "due": c.Due, "close": c.Close, "retry": append([]string{}, c.Retry...),
 			"par": c.Par, "maxTime": c.MaxTime, "retryDelay": c.RetryDelay, "restart": c.Restart,
-			"hdr": append([]string{}, c.Hdr...)})
+			"hdr": append([]string{}, c.Hdr...), "panic": append([]string{}, c.Panic...), "pid": c.Pid,
+			"downtime": c.Downtime})
 		r.setup()
 		r.loop()
 		r.s.Settle()
